@@ -47,5 +47,12 @@ Next ==
 
 Spec == Init /\ [][Next]_vars
 
-Emit == Len(hist) = Depth => PrintT(<<"HIST", ToJson([hist |-> hist])>>)
+\* OnlyStale (overridden in MC_FsIsolation_stale*.cfg): emit only histories after which the
+\* bookkeeping holds a stale entry (recorded, but no longer there: the directory above it was
+\* renamed or removed) next to another recorded path that still exists -- the situation in
+\* which __exit__ has to survive a failing removal and carry on.
+OnlyStale == FALSE
+StaleOn == TRUE
+Stale == \E p \in cr : ~Exists(fs, p) /\ \E q \in cr \ {p} : Exists(fs, q)
+Emit == (Len(hist) = Depth /\ (OnlyStale => Stale)) => PrintT(<<"HIST", ToJson([hist |-> hist])>>)
 =============================================================================
